@@ -351,8 +351,12 @@ def guarded_partial_cases(rng, tier):
 def cases(rng, tier):
     yield from expr_cases(rng, tier)
     yield from guarded_partial_cases(rng, tier)
-    for _ in range(400 if tier == "quick" else 8000):
-        yield g_case(rng)
+    for k in range(400 if tier == "quick" else 8000):
+        c = g_case(rng)
+        if k % 3 == 2:
+            c["drive"] = "single"          # stepped by hand through run_single_step()
+            c["tag"] = c.get("tag", "random") + "-single-steps"
+        yield c
 
 
 # ---------------------------------------------------------------- the real back ends
@@ -454,7 +458,10 @@ def run_backend(case, kind, code):
 
     def snap():
         return {"next": m.next_phase, "vars": [[n, sc.val_js(copy.deepcopy(get(n)))] for n in obs]}
-    gen = m.run(t_end=case["t_end"], max_steps=case["max_steps"])
+    if case.get("drive") == "single":
+        gen = drive_single_steps(m, kind, case)
+    else:
+        gen = m.run(t_end=case["t_end"], max_steps=case["max_steps"])
     try:
         for e in gen:
             ce = canon_event(e, kind)
@@ -479,6 +486,40 @@ def run_backend(case, kind, code):
     finally:
         gen.close()
     return steps
+
+
+def drive_single_steps(m, kind, case):
+    """the loop of run(), written out over the documented single-step entry point run_single_step() (what a caller
+    who steps a method by hand does); same events as run()"""
+    if kind == "interp":
+        import dagrt.exec_numpy as mod
+        fail_exc, trans_exc, failed_ev, completed_ev = mod.FailStepException, mod.TransitionEvent, mod.StepFailed, mod.StepCompleted
+
+        def now():
+            return m.context["<t>"], m.context["<dt>"]
+        kw = "current_state"
+    else:
+        fail_exc, trans_exc, failed_ev, completed_ev = m.FailStepException, m.TransitionEvent, m.StepFailed, m.StepCompleted
+
+        def now():
+            return m.t, m.dt
+        kw = "current_phase"
+    n_steps = 0
+    while True:
+        if case["t_end"] is not None and now()[0] >= case["t_end"]:
+            return
+        if case["max_steps"] is not None and n_steps >= case["max_steps"]:
+            return
+        cur = m.next_phase
+        try:
+            yield from m.run_single_step()
+        except fail_exc:
+            yield failed_ev(t=now()[0])
+            continue
+        except trans_exc as evt:
+            m.next_phase = evt.next_phase
+        yield completed_ev(**{"dt": now()[1], "t": now()[0], kw: cur, "next_phase": m.next_phase})
+        n_steps += 1
 
 
 def run_both(case):
